@@ -872,4 +872,32 @@ def Blocks.ofMode (B : Blocks K) : Nat → Option (List (List K))
   | 0 => some B.state | 1 => some B.gate | 2 => some B.povm | 3 => some B.mprocess | _ => none
 
 
+/-- the sum of the first rows of the first `cnt` HS blocks reads only the first `H·cnt` entries -/
+theorem firstRowSum_take [Add K] [Zero K] (d cnt : Nat) (v : List K) (hd : 0 < d) :
+    firstRowSum d cnt (v.take (hsSize d * cnt)) = firstRowSum d cnt v := by
+  have h1 : 1 ≤ d ^ 2 := Nat.pow_pos hd
+  have hnH : d ^ 2 ≤ hsSize d := by unfold hsSize; exact Nat.le_mul_of_pos_left _ h1
+  unfold firstRowSum
+  have key : ∀ (l : List Nat) (acc : List K), (∀ o ∈ l, o < cnt) →
+      l.foldl (fun acc o => vadd acc (((v.take (hsSize d * cnt)).drop (hsSize d * o)).take (d ^ 2))) acc =
+      l.foldl (fun acc o => vadd acc ((v.drop (hsSize d * o)).take (d ^ 2))) acc := by
+    intro l
+    induction l with
+    | nil => intro acc _; rfl
+    | cons o l ih =>
+      intro acc hl
+      have ho : o < cnt := hl o (by simp)
+      have hle : hsSize d * o + d ^ 2 ≤ hsSize d * cnt := by
+        have : hsSize d * (o + 1) ≤ hsSize d * cnt := Nat.mul_le_mul_left _ (by omega)
+        rw [Nat.mul_succ] at this; omega
+      simp only [List.foldl_cons]
+      have e : ((v.take (hsSize d * cnt)).drop (hsSize d * o)).take (d ^ 2) = (v.drop (hsSize d * o)).take (d ^ 2) := by
+        rw [List.drop_take, List.take_take]
+        congr 1
+        omega
+      rw [e]
+      exact ih _ (fun o' ho' => hl o' (by simp [ho']))
+  exact key _ _ (fun o ho => List.mem_range.1 ho)
+
+
 end QM.C03
